@@ -349,4 +349,6 @@ def check(ctx):
     check_pack(ctx, ci)
     check_init(ctx, ci)
     ctx.floor('obligations', len(ctx.obs), 18)
+    from ..model import check_conf_plumbing
+    check_conf_plumbing(ctx, 'R8-conf-plumbing', 'field positions')
     ctx.trust(*ASSUMPTIONS)
